@@ -28,6 +28,7 @@ type Scenario struct {
 	Sched      int // deviation bound (preemptions, select alternatives, early timers)
 	Fault      int // fault bound
 	DelayBound bool
+	LazyTime   bool // time advances only at quiescence (scheduling latency is not modelled)
 	MaxSteps   int
 	// Known maps a failure signature to the known-finding id it belongs to (set by the
 	// scenario when a failure is a catalogued finding on the unchanged tree).
